@@ -366,7 +366,7 @@ func registerModels(e *Engine) {
 	e.reg("internal/bytealg.Index", func(fr *frame, a []Value) Value { return index(fr, a[0].([]Value), a[1].([]Value)) })
 	e.reg("internal/bytealg.IndexString", func(fr *frame, a []Value) Value { return index(fr, strBytes(a[0]), strBytes(a[1])) })
 	e.reg("internal/bytealg.MakeNoZero", func(fr *frame, a []Value) Value {
-		n := asInt(a[0])
+		n := e.concInt(a[0], types.Typ[types.Int], fr) // a symbolic size (strings.Builder.Grow(n)) is concretized like make's
 		return makeSlice(types.Typ[types.Uint8], n, n)
 	})
 	e.reg("internal/bytealg.Equal", func(fr *frame, a []Value) Value { return e.strEq(mkStr(a[0].([]Value)), mkStr(a[1].([]Value))) })
